@@ -37,6 +37,8 @@ fn variants(quick: bool) -> Vec<Variant> {
         Variant { name: "cache_default", par: d, cache: CacheCfg::Default, tick_ms: 0, restart_every_call: false, read_only_reader: false },
         Variant { name: "cache_2ms_lifetime", par: d, cache: CacheCfg::Custom(2, None, 2), tick_ms: 3, restart_every_call: false, read_only_reader: false },
         Variant { name: "cache_600B_limit", par: d, cache: CacheCfg::Custom(30_000, Some(600), 2), tick_ms: 3, restart_every_call: false, read_only_reader: false },
+        Variant { name: "cache_64B_limit_default_clean", par: d, cache: CacheCfg::Custom(30_000, Some(64), 15_000), tick_ms: 0, restart_every_call: false, read_only_reader: false },
+        Variant { name: "cache_10B_limit_fast_clean", par: d, cache: CacheCfg::Custom(30_000, Some(10), 2), tick_ms: 3, restart_every_call: false, read_only_reader: false },
         Variant { name: "restart_every_call", par: d, cache: CacheCfg::None, tick_ms: 0, restart_every_call: true, read_only_reader: false },
         Variant { name: "read_only_reader", par: d, cache: CacheCfg::None, tick_ms: 0, restart_every_call: false, read_only_reader: true },
         Variant { name: "static4+cache_default+restart", par: AzksParallelismOption::Static(4), cache: CacheCfg::Default, tick_ms: 0, restart_every_call: true, read_only_reader: false },
